@@ -22,7 +22,9 @@ U(s, ui, h, p, pa, q, f) == [scheme |-> s, ui |-> ui, host |-> h, port |-> p, pa
 Schemes == {"https", "http", "app"}
 Hosts   == {"reg", "regUp", "sub.reg", "evil", "localhost", "127.0.0.1", "::1", "localhost.evil"}
 Ports   == IF Tier = "quick" THEN {"", "p2"} ELSE {"", "p1", "p2"}
-Paths   == IF Tier = "quick" THEN {"/cb", "/cb/x", "/other"} ELSE {"/cb", "/cb/", "/cb/x", "/other"}
+\* "/cb_q=1": the registered path and query "/cb?q=1" with another character in the place of the "?" (no query) - a string that a
+\* registered URI would match if it were read as a pattern
+Paths   == IF Tier = "quick" THEN {"/cb", "/cb/x", "/other", "/cb_q=1"} ELSE {"/cb", "/cb/", "/cb/x", "/other", "/cb_q=1"}
 Queries == IF Tier = "quick" THEN {"", "q=1"} ELSE {"", "q=1", "q=2"}
 UIs     == {"", "u"}
 Frags   == {"", "f"}
